@@ -141,6 +141,11 @@ func (rt *runtime) tryCatchEvaluate(inner func() Value) (tryValue Value, isExcep
 			case ottoError:
 				isException = true
 				tryValue = objectValue(rt.newErrorObjectError(caught))
+			case *Error:
+				// The error of another Run or Call, relayed by a host function
+				// with panic(err): as catchable as it is for catchPanic.
+				isException = true
+				tryValue = objectValue(rt.newErrorObjectError(caught.ottoError))
 			case Value:
 				isException = true
 				tryValue = caught
